@@ -26,7 +26,7 @@ OUT = os.environ.get('SV_OUT', os.path.join(VERIF, 'out'))
 EVIDENCE = os.environ.get('SV_EVIDENCE', os.path.join(VERIF, 'evidence'))
 KNOWN = os.path.join(VERIF, 'known_findings.jsonl')
 JOBS = int(os.environ.get('SV_JOBS', str(os.cpu_count() or 4)))
-MAX_CACHE_GENERATIONS = 24
+MAX_CACHE_GENERATIONS = 8
 
 CLANGXX = 'clang++'
 GXX = 'g++'
